@@ -36,6 +36,11 @@ open Eos.World Eos.Calc
 
 abbrev Node := Nat × Int
 
+/-- Solar-system items (ship, drone, fighter squad): what a projection can be recorded as applied to. -/
+def _root_.Eos.World.Kind.isSolsys : Kind → Bool
+  | .ship | .drone | .fighter => true
+  | _ => false
+
 /-- Dynamic state maintained by messages. -/
 structure Dyn where
   /-- loaded flag per item id (an item is registered as affectee between ItemLoaded and ItemUnloaded) -/
